@@ -1,8 +1,26 @@
 """Per-property configuration of ./check (level, generation rule, what the correspondence is)."""
 
-HOOK_COMMITS = []
+HOOK_COMMITS = ["f5b1d5244facd014c279423c479633cc3b50fced", "3268006", "3526304", "271a215"]
 
 PROPS = {
+    "C17": {
+        "level": "proof",
+        "rule": "pairs of canonical substitutions (1-3 generic args over every constructor, placeholders, consts, lifetimes, variables ^0.i) "
+                "derived from a common ancestor by generalising subterms to variables, then identical / edited / ground-vs-generalised / "
+                "independent; ops may-invalidate, merge, is-trivial, combine (solution pairs sharing or not sharing a substitution), "
+                "with-priorities; 1/12 malformed (kind-mismatched, wrong lengths, free inference variables); non-trivial = the merge "
+                "introduced a variable / the check answered / the two solutions differ; distinct = distinct request lines",
+        "technique": "Lean 4 theorems about an exact model of AntiUnifier/MayInvalidate/Solution::combine/with_priorities (induction over the mutual syntax; refutation by witness where the code violates the property) + differential correspondence through cfg hooks + independent matcher as oracle",
+        "claim": "merge_generalizes, combine_comm, combine_no_more, withPriorities_prefers_high are proved for all inputs; the full soundness "
+                 "statement of may_invalidate is refuted on the model by the F1 witness and proved in the partial form (structural instance = "
+                 "instance for guidance without repeated variables); every model function is compared exactly with the real one on every run and "
+                 "the property's sentences are evaluated on the real code (merge results matched against both inputs, may_invalidate=false "
+                 "cross-checked by actually merging, combine in both orders).",
+        "note": "Trusted: Lean kernel, model fidelity (differential only), harness + its matcher. Known finding F1 (open): may_invalidate unsound for "
+                "guidance that repeats a variable. Constants: the types of corresponding constants are assumed equal (typing), as the Rust code assumes. "
+                "Linearity of anti-unifier results (each fresh variable used once) is argued in the model's doc comment, not yet a theorem.",
+        "correspondence": "mayInvalidate/mergeIntoGuidance/isTrivial/Solution.combine/withPriorities (lean/ChalkModel/Aggregate.lean) vs chalk-engine slg::{MayInvalidate, aggregate}, chalk-solve Solution::combine, chalk-recursive combine::with_priorities",
+    },
     "C18": {
         "level": "proof",
         "rule": "pairs (type / domain goal or clause conclusion / argument list) derived from a common ancestor by replacing subterms with "
@@ -16,6 +34,39 @@ PROPS = {
         "note": "Trusted: Lean kernel, model fidelity (differential), harness. The second DESIGN theorem (false => relate fails for every table) needs the "
                 "unifier model and is covered here only by running the real unifier on each rejected pair.",
         "correspondence": "cmTy/cmDomainGoal/cmSlice/implsForTrait (lean/ChalkModel/CouldMatch.lean) vs chalk_ir::could_match and Program::impls_for_trait",
+    },
+    "C19": {
+        "level": "proof",
+        "rule": "per trait two request lines (op priorities: outcome ok+priority per impl / overlap / panic; op coh-trace: which pairs were "
+                "queried and how many solver answers each consumed). Streams: (a) exhaustive: the real CoherenceSolver driven by a scripted "
+                "Solver over every pair of answer strings for 3 impls x all 8 negative-flag assignments, marker on/off (thorough: also every "
+                "string pair for 4 positive impls, 262144 tables); (b) random scripted answer strings for 0..5 impls with varying rates of "
+                "disjoint / two-way / backward answers, so cyclic and non-transitive tables occur, plus marker and negative flags; (c) generated "
+                ".chalk programs with <= 5 impls of a trait over structs I32, U8, Vec<T>, Box<T>, Pair<A,B>: headers from a pool of 19 (blanket T, "
+                "Vec<T>, Vec<Vec<T>>, Vec<I32>, Pair<T,T>, ...), named shapes (chains of 3-5, trees, Pair diamonds, incomparable pairs, flat, "
+                "identical duplicates) with members dropped/added, shuffled order, where-clauses on auxiliary traits that have their own impls, "
+                "1/10 #[marker], negative impls; real SLG solver; the answer table for every pair is read through the cfg(chalk_verif) hook. "
+                "Non-trivial = trait with >= 2 impls for which at least one pair was visited; distinct = distinct request lines",
+        "technique": "Lean 4 theorems about an executable model of visit_specializations_of_trait / build_specialization_forest / set_priorities "
+                     "(loop invariant of the priority DFS, counting argument for roots) + differential correspondence with CoherenceSolver "
+                     "(outcome and query trace) + direct evaluation of the property on the implementation against an independent matcher",
+        "claim": "coherence_total is proved at full strength for the code as repaired (F4): for every number of impls, every table of solver answers "
+                 "(cyclic ones included) and every marker/negative flags the check ends with acceptance or the overlap error, never a panic. "
+                 "priorities_consistent_partial is proved for every non-marker trait under the set-theoretic oracle over an arbitrary type of "
+                 "trait references (sets of any size): two impls that are not both negative and apply to a common trait reference both have "
+                 "a priority and the two differ (so equal priority implies disjoint), and an impl applying to a non-empty strict subset has the "
+                 "strictly higher priority. The sentence read literally for all flags is refuted by machine-checked witnesses in the corner "
+                 "classes the code intends (marker traits are not ordered, two negative impls are never compared, an impl that applies to nothing "
+                 "is disjoint from everything). The model is compared with the real CoherenceSolver on every run (outcome and which queries it "
+                 "made); the property is also evaluated on the real outcome over all ground types of depth <= 2 of each generated program.",
+        "note": "F4 (assert in SpecializationPriorities::insert on a chain of three specializing impls) reproduced, repaired in /repo (commit bfe588c, "
+                "status fixed in known_findings.json), regression inputs in corpus/C19; Legacy.* in the model keeps the pre-repair code and "
+                "legacy_assert_trips_on_chain proves the defect on it. Trusted: Lean kernel, model fidelity (differential only; a petgraph NodeIndex is "
+                "represented by the impl number), harness, the matcher used for the direct evaluation (structs only, where-clauses `Ty: Trait`). "
+                "The comparison of solver answers with sets of trait references is bounded (depth 2) and only the soundness direction is required. "
+                "Residue outside the property's oracle: answers forming a cycle that no root reaches leave those impls without priority (accepted, no panic).",
+        "correspondence": "Coherence model (lean/ChalkModel/Coherence.lean: visit, buildForest, setPriorities, specializationPriorities) vs "
+                          "chalk-solve coherence.rs / coherence/solve.rs CoherenceSolver::specialization_priorities",
     },
     "C25": {
         "level": "proof",
@@ -41,5 +92,38 @@ PROPS = {
                  "term is compared with the implementation's flags as well.",
         "note": "Trusted: Lean kernel, model fidelity (differential only), harness serialiser. STILL_FURTHER_SPECIALIZABLE is modelled but excluded from the theorem, as the property says.",
         "correspondence": "Ty.computeFlags (lean/ChalkModel/Flags.lean) vs TyData.flags as stored by Ty::new",
+    },
+    "C27": {
+        "level": "proof",
+        "rule": "exhaustive, no randomness: 7 layout situations (identical layout size 4 and size 8 with different field offsets -> in-place "
+                "path; larger U, smaller U, T and U zero-sized, only T zero-sized, only U zero-sized -> fallback path) x every length "
+                "0..8 (thorough 0..64) x {no failure, failure at every position k < n} x {Err return, panic caught by catch_unwind}, plus "
+                "boxes for every layout x {ok, err, panic}; the real fallible_map_vec / fallible_map_box are called through the "
+                "cfg(chalk_verif) hook on element types whose destructors log (id, T | U | cb = dropped inside the callback's frame); "
+                "a case is non-trivial when the vector is non-empty (at least one element is mapped or dropped) or it is a box; "
+                "distinct = distinct request lines",
+        "technique": "Lean 4 theorems (induction over the loops of an executable slot/buffer model, all lengths, positions, callbacks) + "
+                     "exhaustive differential correspondence of drop multiset and returned contents with chalk-ir/src/fold/in_place.rs",
+        "claim": "For every layout situation, every callback (position, id) -> ok u | err | panic, every vector length and every failing "
+                 "position, both failure modes, and for boxes, the model of fallible_map_vec / fallible_map_box (control flow of "
+                 "in_place.rs including Drop for VecMappedInPlace on error return and on unwinding, and the into_iter().map().collect() / "
+                 "Box::new fallback) never reaches ub (read of a moved-out/dropped/freed slot, drop at the wrong type, double drop, "
+                 "double free); on failure the drop log is a permutation of {failing element by the callback, mapped prefix as U, "
+                 "unmapped suffix as T} (one entry per position, no duplicates for distinct ids, nothing left live) and every buffer "
+                 "ends freed; on success the log is empty and the result owns a buffer holding all mapped values in order. The model "
+                 "is tied to the Rust code on every run by exact comparison of exit kind, returned ids and sorted drop log over the "
+                 "whole space up to the length bound, and the property is also evaluated directly on the real runs.",
+        "note": "PARTIAL with respect to real memory: the theorems are about slots {liveT, liveU, moved, dropped} and a buffer token "
+                "{owned, freed}; the allocator (sizes/capacities/alignments handed to dealloc inside Vec::from_raw_parts and Box::from_raw, "
+                "reads of uninitialised bytes, pointer provenance) is NOT modelled and not observable by the harness, so a theorem "
+                "about slots cannot exhibit e.g. a dealloc with a wrong layout. The fallback path models std's IntoIter/collect "
+                "abstractly (two buffers); the relative order of std's two destructors is not claimed, only the multiset is compared. "
+                "Supporting evidence outside ./check: the same harness cases (quick tier, 588 runs) executed under "
+                "`cargo +nightly miri run` with -Zmiri-disable-isolation reported no undefined behaviour and no leak. "
+                "Trusted: Lean kernel, model fidelity (differential, exhaustive up to the bound), the harness's drop-recording types.",
+        "correspondence": "InPlace.fallibleMapVec / fallibleMapBox (lean/ChalkModel/InPlace.lean) vs chalk_ir::fold::in_place::{fallible_map_vec, "
+                          "fallible_map_box} through the hook chalk_ir::fold::verif",
+        "explanation": "complete enumeration of layouts x lengths x failure positions x failure modes up to the tier's length bound "
+                       "(8 quick, 64 thorough); the theorems cover all lengths",
     },
 }
